@@ -100,30 +100,37 @@ Record acct := mkA {
   a_retries : list (N * N);               (* volatile: _retries *)
   a_iqs : list (N * cont);                (* volatile: iq registries of the three layers *)
   a_skip : list N;                        (* volatile: skipEncJids *)
-  a_iqctr : N                             (* ghost: numbering of key requests *)
+  a_iqctr : N;                            (* ghost: numbering of key requests *)
+  a_log : list (list (N * N) * list (N * list sstate))
+                                          (* ghost: the committed tables after every commit so far, newest first -
+                                             the durable states the store file has passed through *)
 }.
 
-Definition init (auto : bool) : acct := mkA auto [] [] [] [] [] [] [] [] [] 0.
+Definition init (auto : bool) : acct := mkA auto [] [] [] [] [] [] [] [] [] 0 [].
 
 Definition set_ids (a : acct) (ids : list (N * N)) : acct :=
-  mkA (a_auto a) ids (a_sess a) (a_dids a) (a_dsess a) (a_sentq a) (a_pend a) (a_retries a) (a_iqs a) (a_skip a) (a_iqctr a).
+  mkA (a_auto a) ids (a_sess a) (a_dids a) (a_dsess a) (a_sentq a) (a_pend a) (a_retries a) (a_iqs a) (a_skip a) (a_iqctr a) (a_log a).
 Definition set_sess (a : acct) (s : list (N * list sstate)) : acct :=
-  mkA (a_auto a) (a_ids a) s (a_dids a) (a_dsess a) (a_sentq a) (a_pend a) (a_retries a) (a_iqs a) (a_skip a) (a_iqctr a).
+  mkA (a_auto a) (a_ids a) s (a_dids a) (a_dsess a) (a_sentq a) (a_pend a) (a_retries a) (a_iqs a) (a_skip a) (a_iqctr a) (a_log a).
 Definition set_sentq (a : acct) (q : list (N * N)) : acct :=
-  mkA (a_auto a) (a_ids a) (a_sess a) (a_dids a) (a_dsess a) q (a_pend a) (a_retries a) (a_iqs a) (a_skip a) (a_iqctr a).
+  mkA (a_auto a) (a_ids a) (a_sess a) (a_dids a) (a_dsess a) q (a_pend a) (a_retries a) (a_iqs a) (a_skip a) (a_iqctr a) (a_log a).
 Definition set_pend (a : acct) (p : list (N * list (N * enc))) : acct :=
-  mkA (a_auto a) (a_ids a) (a_sess a) (a_dids a) (a_dsess a) (a_sentq a) p (a_retries a) (a_iqs a) (a_skip a) (a_iqctr a).
+  mkA (a_auto a) (a_ids a) (a_sess a) (a_dids a) (a_dsess a) (a_sentq a) p (a_retries a) (a_iqs a) (a_skip a) (a_iqctr a) (a_log a).
 Definition set_retries (a : acct) (r : list (N * N)) : acct :=
-  mkA (a_auto a) (a_ids a) (a_sess a) (a_dids a) (a_dsess a) (a_sentq a) (a_pend a) r (a_iqs a) (a_skip a) (a_iqctr a).
+  mkA (a_auto a) (a_ids a) (a_sess a) (a_dids a) (a_dsess a) (a_sentq a) (a_pend a) r (a_iqs a) (a_skip a) (a_iqctr a) (a_log a).
 Definition set_iqs (a : acct) (q : list (N * cont)) (ctr : N) : acct :=
-  mkA (a_auto a) (a_ids a) (a_sess a) (a_dids a) (a_dsess a) (a_sentq a) (a_pend a) (a_retries a) q (a_skip a) ctr.
+  mkA (a_auto a) (a_ids a) (a_sess a) (a_dids a) (a_dsess a) (a_sentq a) (a_pend a) (a_retries a) q (a_skip a) ctr (a_log a).
 Definition set_skip (a : acct) (s : list N) : acct :=
-  mkA (a_auto a) (a_ids a) (a_sess a) (a_dids a) (a_dsess a) (a_sentq a) (a_pend a) (a_retries a) (a_iqs a) s (a_iqctr a).
+  mkA (a_auto a) (a_ids a) (a_sess a) (a_dids a) (a_dsess a) (a_sentq a) (a_pend a) (a_retries a) (a_iqs a) s (a_iqctr a) (a_log a).
 
 (* dbConn.commit(): everything written on the connection so far becomes durable *)
 Definition commit (a : acct) : acct :=
   mkA (a_auto a) (a_ids a) (a_sess a) (a_ids a) (a_sess a) (a_sentq a) (a_pend a) (a_retries a) (a_iqs a) (a_skip a)
-      (a_iqctr a).
+      (a_iqctr a) ((a_ids a, a_sess a) :: a_log a).
+
+Definition set_log (a : acct) (l : list (list (N * N) * list (N * list sstate))) : acct :=
+  mkA (a_auto a) (a_ids a) (a_sess a) (a_dids a) (a_dsess a) (a_sentq a) (a_pend a) (a_retries a) (a_iqs a) (a_skip a)
+      (a_iqctr a) l.
 
 Definition record_of (a : acct) (c : N) : list sstate :=
   match lookup c (a_sess a) with Some r => r | None => [] end.
@@ -147,6 +154,12 @@ Definition store_identity (a : acct) (c k : N) : acct := commit (set_ids a (save
 Definition store_session (a : acct) (c : N) (r : list sstate) : acct := commit (set_sess a (upd c r (a_sess a))).
 
 (* ---------- inputs and outputs ---------- *)
+ (* the inputs whose handling writes to the store, i.e. during which the process can die at a write boundary *)
+Inductive kin :=
+| KiSend (c m : N)
+| KiKeys (iq : N) (res : list (N * (N * N)))
+| KiMsg (c m : N) (e : enc).
+
 Inductive input :=
 | IAppSend (c m : N)                         (* the application sends text message m to contact c *)
 | IKeys (iq : N) (res : list (N * (N * N)))  (* key-directory answer: contact -> (identity, base key our builder draws) *)
@@ -155,7 +168,10 @@ Inductive input :=
 | IRestart                                   (* the process ends and a new one starts: volatile state gone, open
                                                 transaction rolled back, the committed store kept *)
 | IWipe                                      (* this account reinstalls: empty store *)
-| INotify (c m : N).                         (* identity-change `encrypt` notification m about contact c *)
+| INotify (c m : N)                          (* identity-change `encrypt` notification m about contact c *)
+| IKill (k : kin) (n : N).                   (* the process is KILLED while it handles input k, after the n-th commit
+                                                of that handling (n = 0: before the first), and a new process starts:
+                                                the store is left in the durable state it had at that moment *)
 
 Inductive output :=
 | OGetKeys (iq : N) (c : N)
@@ -365,13 +381,17 @@ Definition on_receipt (a : acct) (c m : N) (retry : bool) : acct * list output :
 (* the process ends (connection closed, nothing committed any more: an open transaction is rolled back) and a new
    process opens the store: it sees the committed tables *)
 Definition restart (a : acct) : acct :=
-  mkA (a_auto a) (a_dids a) (a_dsess a) (a_dids a) (a_dsess a) [] [] [] [] [] (a_iqctr a).
+  mkA (a_auto a) (a_dids a) (a_dsess a) (a_dids a) (a_dsess a) [] [] [] [] [] (a_iqctr a) (a_log a).
 
 (* AxolotlControlLayer.onIdentityChangeEncryptNotification: ack, then getKeysFor([jid], no-op callback) *)
 Definition on_notify (a : acct) (c m : N) : acct * list output :=
   let '(a1, o) := get_keys a c (KNotify c) in (a1, ONotifAck c m :: o).
 
-Definition step (a : acct) (i : input) : acct * list output :=
+Definition kin_input (k : kin) : input :=
+  match k with KiSend c m => IAppSend c m | KiKeys iq res => IKeys iq res | KiMsg c m e => IMsg c m e end.
+
+(* handling of every input but a kill *)
+Definition step_nk (a : acct) (i : input) : acct * list output :=
   match i with
   | IAppSend c m => app_send a c m
   | IKeys iq res =>
@@ -382,9 +402,36 @@ Definition step (a : acct) (i : input) : acct * list output :=
   | IMsg c m e => handle_enc a c m e
   | IReceipt c m retry => on_receipt a c m retry
   | IRestart => (restart a, [])
-  | IWipe => (mkA (a_auto a) [] [] [] [] [] [] [] [] [] (a_iqctr a), [])
+  | IWipe => (mkA (a_auto a) [] [] [] [] [] [] [] [] [] (a_iqctr a) (a_log a), [])
   | INotify c m => on_notify a c m
+  | IKill _ _ => (a, [])
   end.
+
+(* a new process over committed tables d: nothing volatile *)
+Definition reborn (a : acct) (d : list (N * N) * list (N * list sstate)) : acct :=
+  mkA (a_auto a) (fst d) (snd d) (fst d) (snd d) [] [] [] [] [] (a_iqctr a) (a_log a).
+
+(* the durable states the store passes through while input k is handled, oldest first: the one before, then one per
+   commit.  Between two commits the file shows the older one (a transaction not committed is rolled back when the
+   database is opened again), so these are ALL the states a kill at a write boundary can leave behind *)
+Definition durable_states (a : acct) (k : kin) : list (list (N * N) * list (N * list sstate)) :=
+  (a_dids a, a_dsess a) :: rev (a_log (fst (step_nk (set_log a []) (kin_input k)))).
+
+(* killed after the n-th commit (beyond the last one: the last state) *)
+Definition kill_image (a : acct) (k : kin) (n : N) : acct :=
+  let ds := durable_states a k in
+  reborn a (nth (N.to_nat n) ds (last ds (a_dids a, a_dsess a))).
+
+Definition step (a : acct) (i : input) : acct * list output :=
+  match i with
+  | IKill k n => (kill_image a k n, [])      (* whatever was put out before the kill is not modelled: see the notes *)
+  | _ => step_nk a i
+  end.
+
+(* variant, shape of seeded defect C17-6 (connection in autocommit mode): saveIdentity's DELETE and INSERT are two
+   transactions, the store passes through a state in which the contact has no row *)
+Definition save_identity_nonatomic_states (a : acct) (c k : N) : list (list (N * N) * list (N * list sstate)) :=
+  [ (a_dids a, a_dsess a); (remove_key c (a_ids a), a_sess a); (save_identity (a_ids a) c k, a_sess a) ].
 
 (* a run: state and outputs after each input *)
 Fixpoint run (a : acct) (ins : list input) : acct * list (list output) :=
